@@ -266,8 +266,9 @@ func UsesFuzzyOrBoost(e *expr.Expression) bool {
 //@   requires verifspec.Forall(0, len(opts), func(i int) bool { return opts[i] != nil })
 //@   ensures  (err == nil) != (e == nil)
 //@   ensures  err == nil ==> expr.ShapeV(e) && expr.ShapeP(e)
-//@   loop 0: rangeinv PInv(p)
+//@   loop 0: rangeinv PInv(p) && lex.InputOf(p.lex) == input
 //@   lemma wf before "expr.Validate(ex)": expr.LemmaParsedWF(ex)
+//@   assert the-whole-input-is-lexed before "p.parse()": p.lex != nil && lex.InputOf(p.lex) == input
 
 // ---- the public wrappers ----------------------------------------------------------------------------
 
